@@ -13,6 +13,13 @@ enum Op { Generate, FromBytes, Clone(usize), Drop(usize), Unwind(usize), CloneFr
 fn ops_alphabet(slots: usize) -> Vec<Op> { let mut v = vec![Op::Generate, Op::FromBytes]; for i in 0..slots { v.push(Op::Clone(i)); v.push(Op::Drop(i)); } v.push(Op::Unwind(0)); v.push(Op::Unwind(1)); v.push(Op::CloneFrom(0, 1)); v.push(Op::CloneFrom(1, 0)); v.push(Op::CloneFrom(2, 1)); v }
 fn op_str(o: &Op) -> String { match o { Op::Generate => "gen".into(), Op::FromBytes => "from".into(), Op::Clone(i) => format!("clone{}", i), Op::Drop(i) => format!("drop{}", i), Op::Unwind(i) => format!("unwind{}", i), Op::CloneFrom(i, j) => format!("clonefrom{}<-{}", i, j) } }
 
+/// key VALUES are arbitrary 32-byte strings: besides dense ones, values with long runs of zero bytes at the start, at the end, or everywhere but one place
+/// (a left-padded shorter secret, a small scalar) — a wipe must not depend on what the key looks like
+fn shape(step: usize, mut raw: Vec<u8>) -> Vec<u8> {
+    match step % 5 { 1 => { for b in raw.iter_mut().take(8) { *b = 0; } } 2 => { for b in raw.iter_mut().skip(24) { *b = 0; } } 3 => { for (i, b) in raw.iter_mut().enumerate() { if i != 17 { *b = 0; } } } 4 => { for b in raw.iter_mut().take(16) { *b = 0; } } _ => {} }
+    raw
+}
+
 /// what a program does with a key between construction and drop: derive its public key, run a key exchange
 fn use_key(k: &PrivateKey) {
     if let Ok(p) = k.to_public() { let _ = k.diffie_hellman(&p); }
@@ -26,7 +33,7 @@ fn run_private(prog: &[Op]) -> Result<usize, String> {
     for (step, op) in prog.iter().enumerate() {
         match op {
             Op::Generate => { let k = PrivateKey::generate(); let b = k.as_bytes().to_vec(); kalloc::drops::watch(k.as_bytes().as_ptr() as usize, 32); if step % 2 == 0 { use_key(&k); } live.push(Some((k, b))); }
-            Op::FromBytes => { let raw: Vec<u8> = (0..32).map(|i| (step * 37 + i * 11 + 1) as u8).collect(); let k = PrivateKey::try_from(raw.as_slice()).unwrap(); kalloc::drops::watch(k.as_bytes().as_ptr() as usize, 32); if step % 2 == 0 { use_key(&k); } live.push(Some((k, raw))); }
+            Op::FromBytes => { let raw: Vec<u8> = shape(step, (0..32).map(|i| (step * 37 + i * 11 + 1) as u8).collect()); let k = PrivateKey::try_from(raw.as_slice()).unwrap(); kalloc::drops::watch(k.as_bytes().as_ptr() as usize, 32); if step % 2 == 0 { use_key(&k); } live.push(Some((k, raw))); }
             Op::Clone(i) => { if let Some(Some((k, b))) = live.get(*i) { if step % 2 == 1 { use_key(k); } let c = k.clone(); if c.as_bytes().as_ptr() == k.as_bytes().as_ptr() { return Err(format!("step {}: clone shares its buffer with the original", step)); } kalloc::drops::watch(c.as_bytes().as_ptr() as usize, 32); if step % 3 == 0 { use_key(&c); } let b = b.clone(); live.push(Some((c, b))); } }
             Op::CloneFrom(i, j) => { if i != j && matches!(live.get(*i), Some(Some(_))) && matches!(live.get(*j), Some(Some(_))) {
                 let (src, sb) = { let (k, b) = live[*j].as_ref().unwrap(); (k.clone(), b.clone()) };     // a private copy of the source keeps the borrow checker out of the way; it is dropped (and checked) below
@@ -67,7 +74,7 @@ fn run_payload_boxed(prog: &[Op]) -> Result<usize, String> {
     let sz = std::mem::size_of::<PayloadKey>();
     for (step, op) in prog.iter().enumerate() {
         match op {
-            Op::Generate | Op::FromBytes => { let raw: Vec<u8> = if *op == Op::Generate { kestrel_crypto::secure_random(32) } else { (0..32).map(|i| (step * 53 + i * 7 + 3) as u8).collect() }; let b = Box::new(PayloadKey::new(&raw)); kalloc::drops::watch(&*b as *const PayloadKey as usize, sz); live.push(Some((b, raw))); }
+            Op::Generate | Op::FromBytes => { let raw: Vec<u8> = if *op == Op::Generate { kestrel_crypto::secure_random(32) } else { shape(step, (0..32).map(|i| (step * 53 + i * 7 + 3) as u8).collect()) }; let b = Box::new(PayloadKey::new(&raw)); kalloc::drops::watch(&*b as *const PayloadKey as usize, sz); live.push(Some((b, raw))); }
             Op::Clone(i) => { if let Some(Some((k, b))) = live.get(*i) { let c = Box::new((**k).clone()); kalloc::drops::watch(&*c as *const PayloadKey as usize, sz); let b = b.clone(); live.push(Some((c, b))); } }
             Op::CloneFrom(i, j) => { if i != j && matches!(live.get(*i), Some(Some(_))) && matches!(live.get(*j), Some(Some(_))) { let (src, sb) = { let (k, b) = live[*j].as_ref().unwrap(); ((**k).clone(), b.clone()) }; let (dst, db) = live[*i].as_mut().unwrap(); (**dst).clone_from(&src); *db = sb; } }
             Op::Drop(i) | Op::Unwind(i) => { if let Some(slot) = live.get_mut(*i) { if let Some((k, _)) = slot.take() { let addr = &*k as *const PayloadKey as usize;
@@ -86,7 +93,7 @@ fn run_payload(prog: &[Op]) -> Result<usize, String> {
     let mut released = 0usize;
     for (step, op) in prog.iter().enumerate() {
         match op {
-            Op::Generate | Op::FromBytes => { let raw: Vec<u8> = if *op == Op::Generate { kestrel_crypto::secure_random(32) } else { (0..32).map(|i| (step * 53 + i * 7 + 3) as u8).collect() }; live.push(Some((Box::new(ManuallyDrop::new(PayloadKey::new(&raw))), raw))); }
+            Op::Generate | Op::FromBytes => { let raw: Vec<u8> = if *op == Op::Generate { kestrel_crypto::secure_random(32) } else { shape(step, (0..32).map(|i| (step * 53 + i * 7 + 3) as u8).collect()) }; live.push(Some((Box::new(ManuallyDrop::new(PayloadKey::new(&raw))), raw))); }
             Op::Clone(i) => { if let Some(Some((k, b))) = live.get(*i) { let c: PayloadKey = (***k).clone(); let b = b.clone(); live.push(Some((Box::new(ManuallyDrop::new(c)), b))); } }
             Op::CloneFrom(i, j) => { if i != j && matches!(live.get(*i), Some(Some(_))) && matches!(live.get(*j), Some(Some(_))) { let (src, sb) = { let (k, b) = live[*j].as_ref().unwrap(); ((***k).clone(), b.clone()) }; let (dst, db) = live[*i].as_mut().unwrap(); (***dst).clone_from(&src); *db = sb; } }
             Op::Drop(i) | Op::Unwind(i) => { if let Some(slot) = live.get_mut(*i) { if let Some((mut k, _)) = slot.take() {
@@ -111,7 +118,7 @@ fn run_payload_unaligned(prog: &[Op]) -> Result<usize, String> {
     let mut released = 0usize;
     for (step, op) in prog.iter().enumerate() {
         match op {
-            Op::Generate | Op::FromBytes => { let raw: Vec<u8> = if *op == Op::Generate { kestrel_crypto::secure_random(32) } else { (0..32).map(|i| (step * 53 + i * 7 + 3) as u8).collect() }; live.push(Some((Box::new(Odd { tag: 1, key: ManuallyDrop::new(PayloadKey::new(&raw)) }), raw))); }
+            Op::Generate | Op::FromBytes => { let raw: Vec<u8> = if *op == Op::Generate { kestrel_crypto::secure_random(32) } else { shape(step, (0..32).map(|i| (step * 53 + i * 7 + 3) as u8).collect()) }; live.push(Some((Box::new(Odd { tag: 1, key: ManuallyDrop::new(PayloadKey::new(&raw)) }), raw))); }
             Op::Clone(i) => { if let Some(Some((k, b))) = live.get(*i) { let c: PayloadKey = (*k.key).clone(); let b = b.clone(); live.push(Some((Box::new(Odd { tag: 1, key: ManuallyDrop::new(c) }), b))); } }
             Op::CloneFrom(i, j) => { if i != j && matches!(live.get(*i), Some(Some(_))) && matches!(live.get(*j), Some(Some(_))) { let (src, sb) = { let (k, b) = live[*j].as_ref().unwrap(); ((*k.key).clone(), b.clone()) }; let (dst, db) = live[*i].as_mut().unwrap(); (*dst.key).clone_from(&src); *db = sb; } }
             Op::Drop(i) | Op::Unwind(i) => { if let Some(slot) = live.get_mut(*i) { if let Some((mut k, _)) = slot.take() {
